@@ -50,6 +50,20 @@ func load(dir string) *pkg {
 	return p
 }
 
+// what the extractor could not follow in the source as it is now (a construct it translates was rewritten
+// into a form it does not know): recorded in Knx/Gen/Status.lean.  A theorem over the regenerated facts that
+// fails while this list is non-empty says "not followed", not "false of the code".
+var incomplete []string
+
+func noteIncomplete(s string) {
+	for _, x := range incomplete {
+		if x == s {
+			return
+		}
+	}
+	incomplete = append(incomplete, s)
+}
+
 func fatal(err error) {
 	fmt.Fprintln(os.Stderr, "extract:", err)
 	os.Exit(2)
@@ -186,38 +200,106 @@ func typeString(e ast.Expr) string {
 
 // switchDispatch finds, in function fn, the switch whose cases assign `body = &T{...}` and returns
 // case-constant -> T ("default" for the default clause).
-func (p *pkg) switchDispatch(fn string) [][2]string {
-	fd := p.funcDecl("", fn)
-	if fd == nil {
-		return nil
-	}
+func (p *pkg) switchIn(fd *ast.FuncDecl) [][2]string {
 	var out [][2]string
 	ast.Inspect(fd.Body, func(n ast.Node) bool {
 		sw, ok := n.(*ast.SwitchStmt)
-		if !ok {
+		if !ok || len(out) > 0 {
 			return true
 		}
+		var got [][2]string
 		for _, c := range sw.Body.List {
 			cc := c.(*ast.CaseClause)
 			target := "?"
+			lit := func(e ast.Expr) {
+				if ue, ok := e.(*ast.UnaryExpr); ok && ue.Op == token.AND {
+					if cl, ok := ue.X.(*ast.CompositeLit); ok {
+						target = typeString(cl.Type)
+					}
+				}
+			}
 			for _, st := range cc.Body {
-				if as, ok := st.(*ast.AssignStmt); ok && len(as.Rhs) == 1 {
-					if ue, ok := as.Rhs[0].(*ast.UnaryExpr); ok && ue.Op == token.AND {
-						if cl, ok := ue.X.(*ast.CompositeLit); ok {
-							target = typeString(cl.Type)
-						}
+				switch st := st.(type) {
+				case *ast.AssignStmt:
+					if len(st.Rhs) == 1 {
+						lit(st.Rhs[0])
+					}
+				case *ast.ReturnStmt:
+					if len(st.Results) >= 1 {
+						lit(st.Results[0])
 					}
 				}
 			}
 			if cc.List == nil {
-				out = append(out, [2]string{"default", target})
+				got = append(got, [2]string{"default", target})
 			}
 			for _, e := range cc.List {
-				out = append(out, [2]string{typeString(e), target})
+				got = append(got, [2]string{typeString(e), target})
 			}
+		}
+		// a dispatch switch: at least two arms that construct a value
+		built := 0
+		for _, g := range got {
+			if g[1] != "?" {
+				built++
+			}
+		}
+		if built >= 2 {
+			out = got
 		}
 		return false
 	})
+	// no default arm: the fall-back may be the statement that follows the switch (`return &T{...}`)
+	hasDefault := false
+	for _, o := range out {
+		if o[0] == "default" {
+			hasDefault = true
+		}
+	}
+	if len(out) > 0 && !hasDefault && len(fd.Body.List) > 0 {
+		if rs, ok := fd.Body.List[len(fd.Body.List)-1].(*ast.ReturnStmt); ok && len(rs.Results) >= 1 {
+			if ue, ok := rs.Results[0].(*ast.UnaryExpr); ok && ue.Op == token.AND {
+				if cl, ok := ue.X.(*ast.CompositeLit); ok {
+					out = append(out, [2]string{"default", typeString(cl.Type)})
+				}
+			}
+		}
+	}
+	return out
+}
+
+func (p *pkg) switchDispatch(fn string) [][2]string {
+	fd := p.funcDecl("", fn)
+	if fd == nil {
+		noteIncomplete("dispatch of " + fn + ": function not found")
+		return nil
+	}
+	out := p.switchIn(fd)
+	if len(out) == 0 {
+		// the switch may have been extracted into a helper the function calls
+		ast.Inspect(fd.Body, func(n ast.Node) bool {
+			if ce, ok := n.(*ast.CallExpr); ok && len(out) == 0 {
+				if id, ok := ce.Fun.(*ast.Ident); ok {
+					if g := p.funcDecl("", id.Name); g != nil && g != fd {
+						out = p.switchIn(g)
+					}
+				}
+			}
+			return true
+		})
+	}
+	if len(out) == 0 {
+		noteIncomplete("dispatch of " + fn + ": no switch that constructs the message bodies was found")
+	}
+	for i, o := range out {
+		if o[1] == "?" && !(o[0] == "default" && i == len(out)-1) {
+			noteIncomplete("dispatch of " + fn + ": the arm for " + o[0] + " was not understood")
+		}
+	}
+	// a trailing default without a constructed value: the fall-back may follow the switch
+	if n := len(out); n > 0 && out[n-1][0] == "default" && out[n-1][1] == "?" {
+		noteIncomplete("dispatch of " + fn + ": the default arm was not understood")
+	}
 	return out
 }
 
@@ -243,6 +325,9 @@ func (p *pkg) methodConst(name string) [][2]string {
 					}
 				}
 			}
+			if ret == "?" {
+				noteIncomplete("method " + recv + "." + name + ": body is not a single return of a constant")
+			}
 			out = append(out, [2]string{recv, ret})
 		}
 	}
@@ -252,7 +337,22 @@ func (p *pkg) methodConst(name string) [][2]string {
 
 func leanStr(s string) string { return strconv.Quote(s) }
 
+// sortPairs orders a table by key ("default" last): the order of constant declarations and of switch
+// arms in the source carries no meaning, so it must not show in the facts
+func sortPairs(pairs [][2]string) [][2]string {
+	out := append([][2]string(nil), pairs...)
+	sort.SliceStable(out, func(i, j int) bool {
+		a, b := out[i][0], out[j][0]
+		if (a == "default") != (b == "default") {
+			return b == "default"
+		}
+		return a < b
+	})
+	return out
+}
+
 func emitPairs(sb *strings.Builder, name string, pairs [][2]string, numeric bool) {
+	pairs = sortPairs(pairs)
 	ty := "List (String × String)"
 	if numeric {
 		ty = "List (String × Nat)"
@@ -313,4 +413,14 @@ func main() {
 	writeIfChanged(filepath.Join(*out, "Helpers.lean"), genHelpers(cemi))
 	writeIfChanged(filepath.Join(*out, "Dpt.lean"), genDpt(dpt))
 	writeIfChanged(filepath.Join(*out, "Source.lean"), genSource(*repo, "Knx.Gen.Source"))
+	var st strings.Builder
+	st.WriteString("/- GENERATED by /verif/extract from /repo's working tree — do not edit.\n   What the extractor could not follow in the source as it is now. -/\nnamespace Knx.Gen\n\ndef extractionIncomplete : List String := [")
+	for i, x := range incomplete {
+		if i > 0 {
+			st.WriteString(",")
+		}
+		st.WriteString("\n  " + leanStr(x))
+	}
+	st.WriteString("]\n\nend Knx.Gen\n")
+	writeIfChanged(filepath.Join(*out, "Status.lean"), st.String())
 }
